@@ -92,6 +92,70 @@ func (g *gen) respend(q *HMeltQ, pct int) {
 	g.s.OpSwap(ps, g.outputs(in-fee, g.env.ActiveKeysetId()))
 }
 
+// corpus: minimised sequences that exposed earlier defects / seeded changes, run first in the first history of every
+// run (with the model and all monitors, like any other operation).
+func (g *gen) corpus() {
+	s, env := g.s, g.env
+	if env.Opts.Limits.MaxBalance > 0 || env.Opts.Limits.MintingSettings.MaxAmount > 0 || env.Opts.Limits.MeltingSettings.MaxAmount > 0 {
+		return // the sequences assume no limits
+	}
+	take := func(total uint64) []ReqProof {
+		var ps []ReqProof
+		var have uint64
+		for _, hp := range g.unspent() {
+			if have >= total {
+				break
+			}
+			if hp.Long {
+				continue
+			}
+			ps = append(ps, g.genuine(hp))
+			have += hp.P.Amount
+		}
+		return ps
+	}
+	// funds
+	qf := s.OpMintQuote(256, "sat", 0, false)
+	if qf == nil {
+		return
+	}
+	s.Settle(qf)
+	long := g.longSecrets
+	g.longSecrets = false
+	s.OpMint(qf, g.outputs(256, env.ActiveKeysetId()), 0)
+	// (1) internal settlement that cannot reach the backend: nothing may be credited (F15; seeded C03-2)
+	if qa := s.OpMintQuote(64, "sat", 0, false); qa != nil {
+		if mq := s.OpMeltQuote(env.LN.byHash[qa.Hash], "sat", 0, 0); mq != nil {
+			s.OpMeltLn(mq, take(mq.Amount+mq.Reserve+2), nil, true)
+			s.OpMint(qa, g.outputs(64, env.ActiveKeysetId()), 0)  // must be refused: the quote was never paid
+			s.OpMeltLn(mq, take(mq.Amount+mq.Reserve+2), nil, false) // now it settles
+			s.OpMint(qa, g.outputs(64, env.ActiveKeysetId()), 0)
+		}
+	}
+	// (2) two keysets: old ecash stays valid under its own keyset, and only under it (seeded C04-1)
+	oldId := env.ActiveKeysetId()
+	s.OpRotate(env.Opts.FeePpk)
+	if ps := take(8); len(ps) > 0 {
+		fee, _ := s.feeOf(ps)
+		if in := sumReq(ps); in > fee {
+			s.OpSwap(ps, g.outputs(in-fee, env.ActiveKeysetId())) // honest proofs of the inactive keyset
+		}
+	}
+	qn := s.OpMintQuote(16, "sat", 0, false)
+	if qn != nil {
+		s.Settle(qn)
+		n0 := len(s.proofs)
+		s.OpMint(qn, g.outputs(16, env.ActiveKeysetId()), 0)
+		if len(s.proofs) > n0 {
+			rp := g.genuine(s.proofs[n0])
+			rp.P.Id = oldId // a valid proof of the active keyset relabelled to the inactive one
+			rp.H = nil
+			s.OpSwap([]ReqProof{rp}, g.outputs(rp.P.Amount, env.ActiveKeysetId()))
+		}
+	}
+	g.longSecrets = long
+}
+
 func sumReq(ps []ReqProof) uint64 {
 	var s uint64
 	for _, p := range ps {
@@ -444,6 +508,12 @@ func runOneHistory(c *Ctx, h int, nOps int, model bool) {
 		s.log = append(s.log, Render(init))
 		if m := c.Drv.Ask(init); m != "(ok)" {
 			c.Disagree(mintSeqProps, Render(init), "(ok)", m, nil)
+			return
+		}
+	}
+	if h == 0 {
+		g.corpus()
+		if len(c.Res.Disagreements) > 0 {
 			return
 		}
 	}
